@@ -466,6 +466,17 @@ pub fn root_type(u: &Universe) -> String {
     if def_needs_lifetime(d, u) { format!("{}<'_>", d.name()) } else { d.name().to_string() }
 }
 
+/// Type expression of definition `k` used as a check root (lifetime elided, the generic parameter at u16).
+pub fn def_type(u: &Universe, k: usize) -> String {
+    let d = &u.defs[k];
+    let g = matches!(d, Def::Struct(s) if s.generic);
+    match (def_needs_lifetime(d, u), g) { (false, false) => d.name().to_string(), (true, false) => format!("{}<'_>", d.name()), (false, true) => format!("{}<u16>", d.name()), (true, true) => format!("{}<'_, u16>", d.name()) }
+}
+
+pub fn count_def_optionals(u: &Universe, k: usize) -> usize {
+    match &u.defs[k] { Def::Struct(s) => s.fields.iter().filter(|f| !f.skip && f.optional).count(), Def::Enum(_) => 0 }
+}
+
 pub fn count_root_optionals(u: &Universe) -> usize {
     match u.defs.last().unwrap() { Def::Struct(s) => s.fields.iter().filter(|f| !f.skip && f.optional).count(), Def::Enum(_) => 0 }
 }
